@@ -21,7 +21,17 @@ import (
 	"github.com/q191201771/naza/pkg/nazabytes"
 )
 
-func ParseSps(payload []byte, ctx *Context) error {
+func ParseSps(payload []byte, ctx *Context) (err error) {
+	// nazabits.BitReader reads one byte past the end of its buffer when an exp-golomb code ends exactly at the end of
+	// the buffer (zero-width read after the last bit). The sps comes from the peer, a truncated one must be reported
+	// as an error to the caller like any other malformed sps, it must not take the whole process down.
+	defer func() {
+		if r := recover(); r != nil {
+			Log.Errorf("ParseSps failed. recover=%+v, payload=%s", r, hex.Dump(nazabytes.Prefix(payload, 128)))
+			err = nazaerrors.Wrap(base.ErrAvc)
+		}
+	}()
+
 	// ISO-14496-10.pdf 7.4.1: the sps is a nal unit, emulation_prevention_three_byte has to be removed before parsing the rbsp
 	br := nazabits.NewBitReader(bytes.Replace(payload, []byte{0x0, 0x0, 0x3}, []byte{0x0, 0x0}, -1))
 	var sps Sps
